@@ -46,6 +46,11 @@ func Parse(s string) (rule.Rule, error) {
 	if err := ruleFlagSet.flagSet.Parse(args); err != nil {
 		return nil, err
 	}
+	if ruleFlagSet.flagSet.NArg() > 0 {
+		// Flag parsing stops at the first non-flag argument. Do not silently
+		// ignore it and everything that follows.
+		return nil, fmt.Errorf("unexpected argument '%v'", ruleFlagSet.flagSet.Arg(0))
+	}
 	if err := ruleFlagSet.validate(); err != nil {
 		return nil, err
 	}
@@ -124,7 +129,7 @@ func newRuleFlagSet() *ruleFlagSet {
 	rule.flagSet.Var((*valueFilterList)(&rule.Filters), "F", "filter")
 	rule.flagSet.Var(&rule.Syscalls, "S", "syscall name, number, or 'all'")
 	rule.flagSet.Var(&rule.Permissions, "p", "access type - r=read, w=write, x=execute, a=attribute change")
-	rule.flagSet.StringVar(&rule.Path, "w", "", "path to watch, no wildcards")
+	rule.flagSet.Var(&pathFlag{path: &rule.Path}, "w", "path to watch, no wildcards")
 	rule.flagSet.Var(&rule.Key, "k", "key")
 
 	return rule
@@ -223,7 +228,7 @@ func (l filterList) String() string {
 
 type interFieldFilter rule.FilterSpec
 
-var comparisonRegexp = regexp.MustCompile(`(\w+)\s*(!?=)(\w+)`)
+var comparisonRegexp = regexp.MustCompile(`^(\w+)\s*(!?=)(\w+)$`)
 
 func (f *interFieldFilter) Set(value string) error {
 	values := comparisonRegexp.FindStringSubmatch(value)
@@ -242,7 +247,7 @@ func (f *interFieldFilter) Set(value string) error {
 
 type valueFilter rule.FilterSpec
 
-var filterRegexp = regexp.MustCompile(`(\w+)\s*(<=|>=|&=|=|!=|<|>|&)(\S+)`)
+var filterRegexp = regexp.MustCompile(`(?s)^(\w+)\s*(<=|>=|&=|=|!=|<|>|&)(.+)$`)
 
 func (f *valueFilter) Set(value string) error {
 	values := filterRegexp.FindStringSubmatch(value)
@@ -313,6 +318,10 @@ type addFlag struct {
 }
 
 func (f *addFlag) Set(value string) error {
+	if f.List != "" || f.Action != "" {
+		return errors.New("list and action specified more than once")
+	}
+
 	parts := strings.Split(value, ",")
 	if len(parts) > 2 {
 		return fmt.Errorf("expected a list type and action but got '%v'", value)
@@ -340,6 +349,30 @@ func (f *addFlag) Set(value string) error {
 
 func (f *addFlag) String() string {
 	return fmt.Sprintf("%v,%v", f.List, f.Action)
+}
+
+// --- pathFlag ---
+
+// pathFlag is a flag type for the watch path. It can only be given once.
+type pathFlag struct {
+	path *string
+	set  bool
+}
+
+func (f *pathFlag) Set(value string) error {
+	if f.set {
+		return errors.New("path to watch specified more than once")
+	}
+	f.set = true
+	*f.path = value
+	return nil
+}
+
+func (f *pathFlag) String() string {
+	if f == nil || f.path == nil {
+		return ""
+	}
+	return *f.path
 }
 
 // --- fileAccessTypeFlags ---
